@@ -156,8 +156,12 @@ func runBig[E any](k *kit[E], c BCase) pbt.Outcome {
 			stop, done := make(chan struct{}), make(chan struct{})
 			go func() {
 				defer close(done)
-				var keep any
-				for {
+				var keep [3]any // the last three rounds of junk stay alive, so that new junk goes to other free slots
+				m := n
+				if m < 8192 {
+					m = 8192
+				}
+				for i := 0; ; i++ {
 					select {
 					case <-stop:
 						_ = keep
@@ -166,7 +170,7 @@ func runBig[E any](k *kit[E], c BCase) pbt.Outcome {
 					}
 					runtime.GC()
 					if k.junk != nil {
-						keep = k.junk(8192)
+						keep[i%3] = k.junk(m)
 					}
 				}
 			}()
